@@ -60,14 +60,14 @@ func (o *Out) TableRow() []string    { return []string{hx.Hex(o.ID), strconv.Ito
 var (
 	inIndex = statedb.Index[*In, []byte]{
 		Name:       "id",
-		FromObject: func(o *In) index.KeySet { return index.NewKeySet(index.Key(o.ID)) },
-		FromKey:    func(k []byte) index.Key { return index.Key(k) },
+		FromObject: func(o *In) index.KeySet { return index.NewKeySet(index.String(string(o.ID))) },
+		FromKey:    func(k []byte) index.Key { return index.String(string(k)) },
 		Unique:     true,
 	}
 	outIndex = statedb.Index[*Out, []byte]{
 		Name:       "id",
-		FromObject: func(o *Out) index.KeySet { return index.NewKeySet(index.Key(o.ID)) },
-		FromKey:    func(k []byte) index.Key { return index.Key(k) },
+		FromObject: func(o *Out) index.KeySet { return index.NewKeySet(index.String(string(o.ID))) },
+		FromKey:    func(k []byte) index.Key { return index.String(string(k)) },
 		Unique:     true,
 	}
 )
